@@ -1594,12 +1594,18 @@ def _exhaustive_clauses(patterns, products, kw, mols, depth, cap):
     def run(one_shot):
         R = Reactor(patterns, products, one_shot=one_shot, polymerise_limit=depth, **kw2)
         out = set()
+        strs = set()
         for i, rxn in enumerate(R(*[m.copy() for m in mols])):
             if i > cap:
                 return None
             k = state_key(rxn.products)
             out.add(k)
             objs.setdefault(k, list(rxn.products))
+            if str(rxn) in strs and not dup:
+                # each reaction is reported once (the `seen` strings of `Reactor.__call__`), in either mode
+                dup.append(('one-product-per-match', f'reaction {rxn} is delivered twice by the '
+                                                     f'{"one-shot" if one_shot else "exhaustive"} mode (reactants {[sig_str(m) for m in mols]})'))
+            strs.add(str(rxn))
         return out
 
     def report(cl, st, text):
@@ -1607,6 +1613,7 @@ def _exhaustive_clauses(patterns, products, kw, mols, depth, cap):
         if all(string_stable(m) for m in objs.get(st, [])):
             bad.append((cl, text))
 
+    dup = []
     try:
         got = run(False)
         one = run(True)
@@ -1614,6 +1621,7 @@ def _exhaustive_clauses(patterns, products, kw, mols, depth, cap):
         return []      # a raising template (impossible product) is not an exhaustive-mode question
     if got is None or one is None:
         return []
+    bad += dup
     for st in sorted(one - got)[:3]:
         report('exhaustive-complete', st, f'state {list(st)} is produced by the one-shot mode but not by the exhaustive mode '
                                           f'(reactants {[sig_str(m) for m in mols]})')
